@@ -145,10 +145,11 @@ def is_repo_cmd(prog, f, call):
     fn = call.func
     if not (isinstance(fn, ast.Attribute) and fn.attr == 'cmd'):
         return False
-    recv = src(fn.value)
-    last = recv.rpartition('.')[2]
-    return last in ('repo', '_repo', 'self') or recv.endswith('.repo') or \
-        last == 'git_repo'
+    # any `<object>.cmd(...)`: what the receiver is called says nothing (a
+    # clone kept in another local runs git all the same); the module-level
+    # simplecmd.cmd is a plain function and is accounted for by C16
+    return not (isinstance(fn.value, ast.Name) and
+                fn.value.id in ('simplecmd', 'subprocess', 'os'))
 
 
 def census(prog, an):
